@@ -19,7 +19,8 @@ ASSUMPTIONS = [
     'a catch-all probe handler with priority 1000 marks the dispatch start of every event',
 ]
 REQUIRED = ['pass_with_mixed_priorities', 'fired_from_handler_during_pass', 'stop_called', 'nested_flush', 'equal_priority_ties',
-            'negative_and_float_priorities', 'nested_flush_on_last_of_batch', 'multi_channel_event', 'stop_then_raise']
+            'negative_and_float_priorities', 'nested_flush_on_last_of_batch', 'multi_channel_event', 'stop_then_raise',
+            'manager_with_many_events_behind_it']
 REQUIRED_OBLIGATIONS = ['ORD', 'NOJUMP', 'NOREENTRY', 'HPRIO', 'STOP', 'ONCE']
 WORKER_TIMEOUT = {'quick': 300, 'thorough': 1500}
 ENGINE = 'stepping-driver'
@@ -36,6 +37,19 @@ PRIOS = [-2, -1, -0.5, 0, 0, 0, 0.5, 1, 3]
 def run_case(case):
     from vlib.prog import World
     w = World({'handlers': case['handlers']})
+    if case.get('preload'):
+        # a long-lived manager: it has already queued and dispatched this many events (nobody listens to them) before the passes
+        # under test begin - the ordering guarantees do not wear off with the number of events processed
+        from circuits import Event
+        left = int(case['preload'])
+        while left > 0:
+            n = min(left, 997)
+            for _ in range(n):
+                w.app.fire(Event.create('preload'))
+            w.app.flush()
+            left -= n
+        while len(w.app):
+            w.app.flush()
     for ext in case['passes']:
         for spec in ext:
             w.fire(spec)
@@ -52,6 +66,8 @@ def run_case(case):
 def evaluate(case, w):
     problems = []
     marks = set()
+    if case.get('preload'):
+        marks.add('manager_with_many_events_behind_it')
     counts = {'ORD': 0, 'NOJUMP': 0, 'NOREENTRY': 0, 'HPRIO': 0, 'STOP': 0, 'ONCE': 0, 'ALLRUN': 0}
     declared = {}
     hchan = {}
@@ -208,6 +224,13 @@ def corpus():
         HD(1, 'a', 0, [['fire', EV('b', -2)]]), HD(2, 'b', 0, [['fire', EV('c', -2)]]), HD(3, 'c', 0, [['fire', EV('d', -2)]]), HD(4, 'd', 0, []),
         HD(5, 'a', 1, [['fire', EV('d', 3)]])],
         'passes': [[EV('a', 0), EV('d', 0), EV('a', -1), EV('d', 1)]]})
+    # the same ordering guarantees on a manager that has already processed many events; the passes straddle 2**15, 2**16 and 2**17
+    # events in the manager's lifetime, at every alignment of the batch
+    tie = {'handlers': [HD(1, 'a', 0, [['fire', EV('c', -1)], ['fire', EV('c', 0)]]), HD(2, 'b', 0, [['fire', EV('c', 0)]]), HD(3, 'c', 0, [])],
+           'passes': [[EV('a', 0), EV('b', 0), EV('a', 0), EV('b', -0.5), EV('b', 0), EV('a', 0.5), EV('c', 0), EV('b', 0)], [EV('a', 0), EV('b', 0), EV('c', 0)]]}
+    for base in (1 << 15, 1 << 16, 1 << 17):
+        for off in (0, 1, 2, 3, 5, 8, 11):
+            cs.append(dict(tie, name='long-lived-%d-minus-%d' % (base, off), preload=base - off))
     return cs
 
 
@@ -245,13 +268,16 @@ def gen_case(rng):
         for ps in passes:
             if rng.random() < 0.7:
                 ps.insert(rng.randint(0, len(ps)), dict(EV('mc', rng.choice(PRIOS)), channels=rng.sample(['a', 'b', 'c'], rng.randint(1, 3))))
-    return {'handlers': handlers, 'passes': passes}
+    case = {'handlers': handlers, 'passes': passes}
+    if rng.random() < 0.01:
+        case['preload'] = rng.choice([1 << 15, 1 << 16]) - rng.randint(0, 12)
+    return case
 
 
 def plan(tier, seed):
     if tier == 'quick':
-        return [{'kind': 'corpus'}] + [{'kind': 'random', 'seed': seed * 1000 + i, 'n': 250} for i in range(16)]
-    return [{'kind': 'corpus'}] + [{'kind': 'random', 'seed': seed * 100000 + i, 'n': 4000} for i in range(64)]
+        return [{'kind': 'corpus', 'part': i, 'of': 6} for i in range(6)] + [{'kind': 'random', 'seed': seed * 1000 + i, 'n': 250} for i in range(16)]
+    return [{'kind': 'corpus', 'part': i, 'of': 6} for i in range(6)] + [{'kind': 'random', 'seed': seed * 100000 + i, 'n': 4000} for i in range(64)]
 
 
 def evaluate_case(b, case):
@@ -286,8 +312,9 @@ def run_batch(spec):
     import circuits  # noqa: F401
     b = Batch(PROPERTY)
     if spec['kind'] == 'corpus':
-        for case in corpus():
-            evaluate_case(b, case)
+        for i, case in enumerate(corpus()):
+            if i % spec.get('of', 1) == spec.get('part', 0):
+                evaluate_case(b, case)
     else:
         rng = random.Random(spec['seed'])
         for _ in range(spec['n']):
